@@ -47,7 +47,7 @@ BUILT = {
    text="Every program of 2 processes x 4 ops building conditions (<=2-3 operands, nesting, empty lists, processed operands, failing operands) is executed on the real kernel and the resume instants, ConditionValue key order and exceptions compared with the specification (CondPendingMeansUnmet is an invariant of the model). Generated programs with deeper trees and conditions without probe callbacks are validated by TLC; traces explained only by the named deviation are reported as KNOWN-FINDING F19b.",
    note=KERN, design="6/C05"),
  "C19": dict(
-   technique="TLA+ spec Timer.tla model-checked with TLC over all stop/restart histories within bounds + TLC trace validation of the real Timer on emitted and random histories",
+   technique="TLA+ spec Timer.tla model-checked with TLC over all stop/restart histories within bounds + inductive invariant of the same spec discharged by Apalache (unbounded timeouts/instants) + TLC trace validation of the real Timer on emitted and random histories",
    text="Exhaustive TLC run over all histories of <=4 outside stop/restart calls and scripted calls from the timer's own callback (before, exactly at and after expiries, one-shot and auto-restart, T/tau in 1..3) checks FiresExactlyAtExpiry, OncePerExpiry, StoppedNeverFires, RestartRebases, NeverRaises, ArgsPassed; emitted and random longer histories are replayed on the real Timer (callers created before and after the timer so both same-instant orders occur; scalar and list args) and each recorded trace must be a behaviour of the specification.",
    note="dyadic time lattice; re-arming an already expired one-shot timer is left open as the property does", design="6/C19"),
 
@@ -100,9 +100,9 @@ BUILT = {
    design="6/C17"),
 
  "C20": dict(
-   technique="TLA+ spec Realtime.tla model-checked with TLC against an adversarial virtual wall clock + TLC trace validation of the real RealtimeEnvironment under a scripted monotonic/sleep pair; same programs executed on Environment and RealtimeEnvironment and validated against SimKernel",
+   technique="TLA+ spec Realtime.tla model-checked with TLC against an adversarial virtual wall clock + inductive invariant of the same spec discharged by Apalache + TLC trace validation of the real RealtimeEnvironment under a scripted monotonic/sleep pair; same programs executed on Environment and RealtimeEnvironment and validated against SimKernel",
    text="Exhaustive TLC runs over all agendas and wall-clock behaviours within the bounds (sleeps returning early, exactly, late, late by exactly factor; bodies consuming wall time; sync from the top level and from bodies; step repeated after a raise) check NeverEarly, StrictIff, NonStrictNeverRaises, SyncRebases, SleepsUntilDue; TLC-emitted schedules, random longer agendas and generated kernel programs are run on the real RealtimeEnvironment with onl.sim.rt.monotonic/sleep replaced by a scripted virtual clock, the pacing trace is validated against the specification, the kernel log must equal the plain Environment's and (initial time 0) is validated by TLC against SimKernel.",
-   note="virtual clock on a quarter-tick lattice, factors with exact binary representation; real wall clocks stay with tests/test_rt.py; the text after 'Simulation too slow for real time' is not compared",
+   note="virtual clock on a quarter-tick lattice (a third of the random schedules on a 2^-16 s lattice), factors with exact binary representation; real wall clocks stay with tests/test_rt.py; the text after 'Simulation too slow for real time' is not compared",
    design="6/C20"),
 }
 
